@@ -1101,19 +1101,19 @@ var c11Tracing = make([]byte, 25)
 
 // scripted label sequences that every run covers (labels as in Model/Goroutines.v tlabel_of)
 var c11TeardownScripts = [][]int64{
-	{2, 5},            // writes start failing, the writer writes
-	{10, 2, 5},        // the same with an outbound call in flight
-	{110, 2, 5, 0},    // with an inbound call in flight, then Close
-	{0, 2, 5},         // Close first (connection already Closed: the frame is never written)
-	{110, 0, 2, 5},    // closing connection waiting for an inbound call when the write fails
-	{3},               // reads fail
-	{1},               // peer goes away
-	{110, 14},         // duplicate id: protocol error
-	{10, 15},          // peer reports a protocol error
-	{10, 0, 11},       // graceful close waits for the outbound call
-	{110, 10, 0, 1},   // peer goes away while closing
-	{16, 17, 0},       // a write blocks for a while, then the peer reads again
-	{16, 0},           // a write blocks for good (the peer never reads again), then Close
+	{2, 5},          // writes start failing, the writer writes
+	{10, 2, 5},      // the same with an outbound call in flight
+	{110, 2, 5, 0},  // with an inbound call in flight, then Close
+	{0, 2, 5},       // Close first (connection already Closed: the frame is never written)
+	{110, 0, 2, 5},  // closing connection waiting for an inbound call when the write fails
+	{3},             // reads fail
+	{1},             // peer goes away
+	{110, 14},       // duplicate id: protocol error
+	{10, 15},        // peer reports a protocol error
+	{10, 0, 11},     // graceful close waits for the outbound call
+	{110, 10, 0, 1}, // peer goes away while closing
+	{16, 17, 0},     // a write blocks for a while, then the peer reads again
+	{16, 0},         // a write blocks for good (the peer never reads again), then Close
 }
 
 func c11Teardown(rng *rand.Rand, n int, o *Out) {
